@@ -604,6 +604,7 @@ func ruleValid(p *Prog, r *Report) {
 	m := 0
 	for _, pc := range callsOf(wnl, pbo) {
 		var resIfs []*ssa.If
+		var otherIfs []*ssa.If // result == <a constant other than breakInvalid>
 		for _, b := range wnl.Blocks {
 			iff := ifOf(b)
 			if iff == nil {
@@ -619,6 +620,8 @@ func ruleValid(p *Prog, r *Report) {
 			}
 			if c, ok := intConst(bo.Y); ok && c == inv {
 				resIfs = append(resIfs, iff)
+			} else if ok {
+				otherIfs = append(otherIfs, iff)
 			}
 		}
 		for _, mc := range callsOf(wnl, mark) {
@@ -642,6 +645,12 @@ func ruleValid(p *Prog, r *Report) {
 					ok = true
 				}
 			}
+			// or only on the true edge of a test of the result against another constant
+			for _, iff := range otherIfs {
+				if guardedBy(p, wnl, mc, guard{iff, false}) {
+					ok = true
+				}
+			}
 			r.Check(ok, rule, key, p.IPos(mc), "a candidate run is committed only when processBreakOption did not report breakInvalid")
 		}
 	}
@@ -649,7 +658,27 @@ func ruleValid(p *Prog, r *Report) {
 }
 
 // derivesFromAgg: like derivesFrom but also looks into variadic slices built from a local array.
-func derivesFromAgg(v ssa.Value, pred func(ssa.Value) bool) bool {
+func derivesFromAgg(v ssa.Value, pred0 func(ssa.Value) bool) bool {
+	// also through a local the value was spilled to (a struct whose fields are read elsewhere)
+	var pred func(ssa.Value) bool
+	busy := map[ssa.Value]bool{}
+	pred = func(x ssa.Value) bool {
+		if pred0(x) {
+			return true
+		}
+		if u, ok := x.(*ssa.UnOp); ok && u.Op == token.MUL {
+			if al, ok := u.X.(*ssa.Alloc); ok && !busy[al] && al.Referrers() != nil {
+				busy[al] = true
+				defer delete(busy, al)
+				for _, in := range *al.Referrers() {
+					if st, ok := in.(*ssa.Store); ok && st.Addr == ssa.Value(al) && derivesFrom(st.Val, pred, 0) {
+						return true
+					}
+				}
+			}
+		}
+		return false
+	}
 	if derivesFrom(v, pred, 0) {
 		return true
 	}
